@@ -100,6 +100,15 @@ def run_walk(tid, inputs, seed):
                             p = e5.plain(it)
                             els.append({"a": names.get(p[0], f"?{p[0]}"), "b": "known" if p[1] != "" else "unknown"})
                     obs["reply"] = els
+            elif k == "ReadAlarmSVs":
+                rep = ask(1, 3, e5.encode(e5.L(e5.U4(1004), e5.U4(1005))))
+                if rep is None or rep["f"] != 4:
+                    obs["reply"] = [{"a": "abort", "b": ""}]
+                else:
+                    vals = [e5.plain(it) for it in e5.decode_all(rep["body"])[1]]
+                    vals = [v if isinstance(v, list) else ([] if v in ("", b"", None) else [v]) for v in vals]
+                    obs["reply"] = [{"a": nm, "b": ",".join(sorted(ALN.get(x, f"?{x}") for x in v)) or "none"}
+                                    for nm, v in zip(("enabled", "set"), vals)]
             elif k == "SetEC":
                 rep = ask(2, 15, e5.encode(e5.L(*[e5.L(ident(ECID[p["e"]]), ("I4", [p["x"]])) for p in inp["ps"]])))
                 obs["reply"] = [{"a": "ack", "b": str(e5.plain(e5.decode_all(rep["body"])))}] if rep and rep["f"] == 16 \
@@ -165,7 +174,7 @@ def run_walk(tid, inputs, seed):
 def run(ctx: Ctx):
     wd = workdir(PID)
     cfg = ("SPECIFICATION Spec\nVIEW View\nINVARIANT ConstantsWithinBounds\nPROPERTY AllOrNothing\n"
-           "PROPERTY AlarmReportIffEnabledChange\nPROPERTY ReadsChangeNothing\n")
+           "PROPERTY AlarmReportIffEnabledChange\nPROPERTY ReadsChangeNothing\nPROPERTY SetListsAgree\n")
     dump = not ctx.quick
     r = tlc.run("GemData", cfg_text=cfg + ("ACTION_CONSTRAINT Dump\n" if dump else ""), workdir=wd,
                 workers=1 if dump else 16, what="gen", coverage=not dump, timeout=3600, heap="12g")
@@ -222,5 +231,5 @@ def run(ctx: Ctx):
     ctx.rule = ("histories = random walks of 40 requests over the monitor alphabet (121 requests: id lists incl. unknown/repeated/"
                 "text ids, constants below/at/inside/above bounds, alarm enable/list/set/clear, value updates); thorough adds walks "
                 "covering the complete transition relation; non-trivial = distinct (request, observation) with content")
-    ctx.assumptions += ["predefined SVs/ECs (clock, ...) are masked; 2 user SVs, 2 ECs (one bounded), 2 alarms"]
+    ctx.assumptions += ["predefined SVs/ECs (clock, ...) are masked except AlarmsEnabled / AlarmsSet; 2 user SVs, 2 ECs (one bounded), 2 alarms"]
     return ctx.finish()
